@@ -12,131 +12,7 @@ typedef struct { int mode_invalid; int result; uint32_t reason; } BlockValidatio
 static inline bool BlockState_Invalid(BlockValidationState* state, int result, uint32_t reason)   /* VERIF_STUB of ValidationState::Invalid */
 { state->result = result; state->reason = reason; state->mode_invalid = 1; return 0; }
 
-#define FRESH_BU(p) __CPROVER_is_fresh(p, sizeof(base_uint256))
-
-/* ================= reference definitions (the spec side) ================= */
-/* compact decoding: value = mantissa * 256^(size-3), mantissa = low 23 bits, sign = bit 23 */
-#define C_SIZE(c) ((unsigned)((c) >> 24))
-#define C_MANT(c) ((uint32_t)((c) & 0x007fffffu))
-#define C_WORD(c) (C_SIZE(c) <= 3 ? (uint32_t)(C_MANT(c) >> (8 * (3 - C_SIZE(c)))) : C_MANT(c))          /* mantissa actually used */
-#define C_NBYTES(w) ((w) > 0xffffu ? 3 : (w) > 0xffu ? 2 : 1)
-#define SETC(c) (C_SIZE(c) <= 3 ? (u256)C_WORD(c) : (8 * (C_SIZE(c) - 3) >= 256 ? (u256)0 : (u256)(((u256)C_MANT(c)) << (8 * (C_SIZE(c) - 3)))))
-#define SETC_NEG(c) (C_WORD(c) != 0 && ((c) & 0x00800000u) != 0)
-#ifdef TWIN_SETC_OVERFLOW
-#define SETC_OVF(c) (C_WORD(c) != 0 && (C_NBYTES(C_WORD(c)) + (int)C_SIZE(c) - 3 > 33))
-#else
-#define SETC_OVF(c) (C_WORD(c) != 0 && (C_NBYTES(C_WORD(c)) + (int)C_SIZE(c) - 3 > 32))      /* needs more than 32 bytes */
-#endif
-/* compact encoding: the canonical (normalised) pair: mantissa in [0x008000, 0x7fffff], value >> 8(size-3) == mantissa */
-#define IS_COMPACT_OF(c, x) ((x) == 0 ? (c) == 0 : \
-    (C_MANT(c) >= 0x8000u && C_SIZE(c) >= 1 && C_SIZE(c) <= 33 && ((c) & 0x00800000u) == 0 && \
-     (C_SIZE(c) >= 3 ? ((x) >> (8 * (C_SIZE(c) - 3))) == (u256)C_MANT(c) : (((x) >> (8 * C_SIZE(c))) == 0 && (u256)C_MANT(c) == (u256)((x) << (8 * (3 - C_SIZE(c))))))))
-
-/* ================= base_uint<256> ================= */
-void base_uint_assign64(base_uint256* self, uint64_t b)
-__CPROVER_requires(FRESH_BU(self))
-__CPROVER_ensures(U256_OF(self) == (u256)b)
-__CPROVER_assigns(ASSIGNS_PN(self));
-
-uint64_t base_uint_GetLow64(const base_uint256* self)
-__CPROVER_requires(FRESH_BU(self))
-__CPROVER_ensures(__CPROVER_return_value == (uint64_t)U256_OF(self))
-__CPROVER_assigns();
-
-void base_uint_shl(base_uint256* self, unsigned int shift)
-__CPROVER_requires(FRESH_BU(self))
-#ifdef TWIN_SHL
-__CPROVER_ensures(U256_OF(self) == (shift >= 255 ? (u256)0 : (u256)(U256_OLD(self) << shift)))
-#else
-__CPROVER_ensures(U256_OF(self) == (shift >= 256 ? (u256)0 : (u256)(U256_OLD(self) << shift)))
-#endif
-__CPROVER_assigns(ASSIGNS_PN(self));
-
-void base_uint_shr(base_uint256* self, unsigned int shift)
-__CPROVER_requires(FRESH_BU(self))
-__CPROVER_ensures(U256_OF(self) == (shift >= 256 ? (u256)0 : (u256)(U256_OLD(self) >> shift)))
-__CPROVER_assigns(ASSIGNS_PN(self));
-
-/* Wide multiplication / division are kept OUT of the bit-level formulas of the callers: callers see the results of
- * operator*=(uint32_t) and operator/= as uninterpreted functions of their inputs (sound: both are deterministic
- * functions of exactly these inputs).  What the functions MEAN is a separate obligation:
- *   UF_MUL(x, b) = x * b mod 2^256   -- harness h_mul32_is_product (-DPROVE_MUL32) enforces it on the extracted operator*=
- *   UF_DIV(x, d) = floor(x / d)      -- VERIF_TRUSTED: operator/= (256-bit long division) is NOT verified */
-u256 __CPROVER_uninterpreted_mul256x32(u256 x, uint32_t b);
-u256 __CPROVER_uninterpreted_div256x64(u256 x, uint64_t d);
-int64_t __CPROVER_uninterpreted_interval(int64_t timespan, int64_t spacing);
-#define UF_MUL(x, b) __CPROVER_uninterpreted_mul256x32(x, b)
-#define UF_DIV(x, d) __CPROVER_uninterpreted_div256x64(x, d)
-#define UF_INTERVAL(t, sp) __CPROVER_uninterpreted_interval(t, sp)
-
-void base_uint_mul32(base_uint256* self, uint32_t b32)
-__CPROVER_requires(FRESH_BU(self))
-#ifdef PROVE_MUL32
-__CPROVER_ensures(U256_OF(self) == (u256)(U256_OLD(self) * (u256)b32))
-#else
-__CPROVER_ensures(U256_OF(self) == UF_MUL(U256_OLD(self), b32))
-#endif
-__CPROVER_assigns(ASSIGNS_PN(self));
-
-void base_uint_div_u64(base_uint256* self, uint64_t d)
-__CPROVER_requires(FRESH_BU(self) && d != 0)
-__CPROVER_ensures(U256_OF(self) == UF_DIV(U256_OLD(self), d))
-__CPROVER_assigns(ASSIGNS_PN(self));
-
-int base_uint_CompareTo(const base_uint256* self, const base_uint256* b)
-__CPROVER_requires(FRESH_BU(self) && FRESH_BU(b))
-#ifdef TWIN_CMP
-__CPROVER_ensures(__CPROVER_return_value == (U256_OF(self) <= U256_OF(b) ? -1 : 1))
-#else
-__CPROVER_ensures(__CPROVER_return_value == (U256_OF(self) < U256_OF(b) ? -1 : U256_OF(self) > U256_OF(b) ? 1 : 0))
-#endif
-__CPROVER_assigns();
-
-bool base_uint_EqualTo(const base_uint256* self, uint64_t b)
-__CPROVER_requires(FRESH_BU(self))
-__CPROVER_ensures(__CPROVER_return_value == (U256_OF(self) == (u256)b))
-__CPROVER_assigns();
-
-/* number of significant bits */
-unsigned int base_uint_bits(const base_uint256* self)
-__CPROVER_requires(FRESH_BU(self))
-__CPROVER_ensures(__CPROVER_return_value <= 256)
-__CPROVER_ensures(__CPROVER_return_value == 0 ==> U256_OF(self) == 0)
-#ifdef TWIN_BITS
-__CPROVER_ensures(__CPROVER_return_value > 0 ==> (U256_OF(self) >> __CPROVER_return_value) == 1)
-#else
-__CPROVER_ensures(__CPROVER_return_value > 0 ==> (U256_OF(self) >> (__CPROVER_return_value - 1)) == 1)
-#endif
-__CPROVER_assigns();
-
-unsigned int CeilDiv(const unsigned int dividend, const unsigned int divisor)
-__CPROVER_requires(divisor == 8)      /* contracted for its only use inside the slices: CeilDiv(bits(), 8u) */
-__CPROVER_ensures((uint64_t)__CPROVER_return_value * 8 >= dividend && (uint64_t)__CPROVER_return_value * 8 < (uint64_t)dividend + 8)
-__CPROVER_assigns();
-
-/* ================= compact encoding ================= */
-void arith_SetCompact(base_uint256* self, uint32_t nCompact, bool* pfNegative, bool* pfOverflow)
-__CPROVER_requires(FRESH_BU(self) && (pfNegative == NULL || __CPROVER_is_fresh(pfNegative, sizeof(bool))) && (pfOverflow == NULL || __CPROVER_is_fresh(pfOverflow, sizeof(bool))))
-__CPROVER_ensures(U256_OF(self) == SETC(nCompact))
-#ifdef TWIN_SETC_NEG
-__CPROVER_ensures(pfNegative != NULL ==> *pfNegative == ((nCompact & 0x00800000u) != 0))
-#else
-__CPROVER_ensures(pfNegative != NULL ==> *pfNegative == SETC_NEG(nCompact))
-#endif
-__CPROVER_ensures(pfOverflow != NULL ==> *pfOverflow == SETC_OVF(nCompact))
-/* overflow flag clear => the decoded value really is mantissa * 256^(size-3) (nothing was shifted out) */
-__CPROVER_ensures((!SETC_OVF(nCompact) && C_SIZE(nCompact) > 3 && C_SIZE(nCompact) <= 34) ==> (U256_OF(self) >> (8 * (C_SIZE(nCompact) - 3))) == (u256)C_MANT(nCompact))
-__CPROVER_assigns(ASSIGNS_PN(self); pfNegative != NULL: *pfNegative; pfOverflow != NULL: *pfOverflow);
-
-uint32_t arith_GetCompact(const base_uint256* self, bool fNegative)
-__CPROVER_requires(FRESH_BU(self))
-#ifdef TWIN_GETC
-__CPROVER_ensures(IS_COMPACT_OF(__CPROVER_return_value & ~0x00800000u, U256_OF(self) >> 1))
-#else
-__CPROVER_ensures(IS_COMPACT_OF(__CPROVER_return_value & ~0x00800000u, U256_OF(self)))
-#endif
-__CPROVER_ensures(((__CPROVER_return_value & 0x00800000u) != 0) == (fNegative && U256_OF(self) != 0))
-__CPROVER_assigns();
+#include "../arith_contracts.h"
 
 /* ================= pow.cpp ================= */
 int64_t Params_DifficultyAdjustmentInterval(const Consensus_Params* self)
